@@ -302,6 +302,17 @@ Proof.
   - pose proof (ngood_ns _ _ (ns_log_load st pk) HI) as G. eapply ngood_trans; [exact G|apply IH; exact (proj1 G)].
 Qed.
 
+Lemma load_native_run_ngood st name : NInv nr st -> ngood nr st (fst (load_native_run nr rq st name)).
+Proof.
+  intro HI. unfold load_native_run.
+  destruct (cache_get (native_cache st) name); [apply ngood_refl; exact HI|].
+  pose proof (load_native_ngood nr st name Hwf HI) as G. destruct (load_native nr st name) as [st1 r]. cbn [fst] in G.
+  destruct r as [m| | | |]; try exact G.
+  remember (run_lazies rq st1 loader_file (assoc_reqs (n_loader_reqs nr) (registered_name st1 m))) as rl eqn:ERL.
+  assert (G3 : ngood nr st1 (fst rl)) by (rewrite ERL; apply run_lazies_ngood; exact (proj1 G)).
+  destruct rl as [st2 oof]. cbn [fst] in *. exact (ngood_trans _ _ _ _ G G3).
+Qed.
+
 Lemma resolve_ngood st d r : NInv nr st -> ngood nr st (fst (resolve fs nr rq st d r)).
 Proof.
   intro HI. unfold resolve.
@@ -311,7 +322,7 @@ Proof.
     pose proof (try_cands_ngood (cands_file_or_dir fs (parse ps)) st HI) as G.
     destruct (try_cands fs rq st (cands_file_or_dir fs (parse ps))) as [st1 x]. cbn [fst] in *.
     destruct x as [m| | | |]; exact G.
-  - pose proof (load_native_ngood nr st r Hwf HI) as G0. destruct (load_native nr st r) as [st0 rn]. cbn [fst] in G0.
+  - pose proof (load_native_run_ngood st r HI) as G0. destruct (load_native_run nr rq st r) as [st0 rn]. cbn [fst] in G0.
     destruct rn as [m| | | |]; try exact G0.
     set (nk := render d ++ 0 :: r).
     destruct (cache_get (node_cache st0) nk); [exact G0|].
@@ -343,4 +354,21 @@ Proof.
     destruct (require_ fs nr fuel st d r) as [st1 x]. cbn [fst] in *.
     exact (proj1 (ngood_ns nr _ _ (ns_log_event st1 [] r _) HI1)). }
   apply H. apply init_ninv.
+Qed.
+
+(* re-entrant loaders: when the loader of a core module X starts, X is already cached under both spellings, so a require of
+   either spelling from inside the loader (directly or through a cycle of other loaders) returns the very module being
+   loaded and starts no second loader *)
+Theorem alias_in_place_for_the_loader nr rq st name :
+  has_prefix node_prefix name = false ->
+  mem_zs name (n_registry nr) = false -> mem_zs name (n_global nr) = false -> mem_zs name (n_core nr) = true ->
+  cache_get (native_cache st) name = None ->
+  exists m, snd (load_native nr st name) = ROk m /\
+    let st1 := fst (load_native nr st name) in
+    load_native_run nr rq st1 name = (st1, ROk m) /\ load_native_run nr rq st1 (node_prefix ++ name) = (st1, ROk m).
+Proof.
+  intros Hp Hr Hg Hc Hn. unfold load_native. rewrite Hn, Hr, Hg, Hc.
+  destruct (new_module st (ONative name NCore)) as [s1 m] eqn:E. rewrite Hp. exists m. cbn [fst snd]. split; [reflexivity|].
+  unfold load_native_run. cbn [native_cache with_native]. rewrite !RequireInv.get_set, !zs_eqb_refl.
+  destruct (zs_eqb name (node_prefix ++ name)); split; reflexivity.
 Qed.
